@@ -75,15 +75,15 @@ theorem filter_runL (cap : CapFn) (k : κ) (rs : List (Req κ)) (st : State κ) 
 
 /-! ### grid arithmetic -/
 
-theorem same_window_not_after (W q t : Nat) (hW : 0 < W) (h : t / W = q / W) :
-    ¬ (t > (q / W) * W + W) := by
+theorem same_window_before (W q t : Nat) (hW : 0 < W) (h : t / W = q / W) :
+    ¬ ((q / W) * W + W ≤ t) := by
   have h1 := Nat.div_add_mod t W
   have h2 := Nat.mod_lt t hW
   rw [← h, Nat.mul_comm]
   omega
 
-theorem new_window_after (W q t : Nat) (_hW : 0 < W) (hqt : q ≤ t) (hb : t % W ≠ 0) (h : t / W ≠ q / W) :
-    t > (q / W) * W + W := by
+theorem new_window_reached (W q t : Nat) (hqt : q ≤ t) (h : t / W ≠ q / W) :
+    (q / W) * W + W ≤ t := by
   have h1 := Nat.div_add_mod t W
   have h3 : q / W ≤ t / W := Nat.div_le_div_right hqt
   have h4 : q / W + 1 ≤ t / W := by omega
@@ -109,14 +109,26 @@ theorem passesInWin_zero (W idx : Nat) (h : List (Event κ)) (hno : ∀ e ∈ h,
     have h2 := ih (fun x hx => hno x (by simp [hx]))
     simp [passesInWin, h1, h2]
 
-theorem refSpill_cons_cons (e p : Event κ) (rest : List (Event κ)) :
-    refSpill (e :: p :: rest) =
-      if e.t / e.wd.W == p.t / e.wd.W then refSpill (p :: rest)
-      else if e.wd.spillOn then
-        (if dayOfMonth e.t == e.wd.renewDay then 0
-         else refSpill (p :: rest) + e.wd.allowed - passesInWin e.wd.W (p.t / e.wd.W) (p :: rest))
-      else refSpill (p :: rest) := by
-  rw [refSpill]
+theorem regimeW_cons_same (W : Nat) (p : Event κ) (l : List (Event κ)) (h : p.wd.W = W) :
+    regimeW W (p :: l) = p :: regimeW W l := by
+  simp [regimeW, List.takeWhile_cons, h]
+
+theorem regimeW_cons_diff (W : Nat) (p : Event κ) (l : List (Event κ)) (h : p.wd.W ≠ W) :
+    regimeW W (p :: l) = [] := by
+  simp [regimeW, List.takeWhile_cons, h]
+
+theorem mem_regimeW (W : Nat) (x : Event κ) (l : List (Event κ)) (hx : x ∈ regimeW W l) : x ∈ l := by
+  induction l with
+  | nil => simp [regimeW] at hx
+  | cons p rest ih =>
+    by_cases hp : p.wd.W = W
+    · rw [regimeW_cons_same _ _ _ hp] at hx
+      simp only [List.mem_cons] at hx ⊢
+      rcases hx with rfl | hx
+      · exact Or.inl rfl
+      · exact Or.inr (ih hx)
+    · rw [regimeW_cons_diff _ _ _ hp] at hx
+      simp at hx
 
 theorem regime_eq (e : Event κ) (older : List (Event κ)) (h : ∀ p ∈ older, p.wd.W = e.wd.W) :
     regime e older = older := by
@@ -124,10 +136,18 @@ theorem regime_eq (e : Event κ) (older : List (Event κ)) (h : ∀ p ∈ older,
   induction older with
   | nil => rfl
   | cons q rest ih =>
-    have hq : (q.wd.W == e.wd.W) = true := by simpa using h q (by simp)
-    rw [List.takeWhile_cons, hq]
-    simp only [if_true]
-    rw [ih (fun p hp => h p (by simp [hp]))]
+    rw [regimeW_cons_same _ _ _ (h q (by simp)), ih (fun p hp => h p (by simp [hp]))]
+
+theorem refSpill_cons_cons (e p : Event κ) (rest : List (Event κ)) :
+    refSpill (e :: p :: rest) =
+      if p.wd.W != e.wd.W then refSpill (p :: rest)
+      else if e.t / e.wd.W == p.t / e.wd.W then refSpill (p :: rest)
+      else if e.wd.spillOn then
+        (if dayOfMonth e.t == e.wd.renewDay then 0
+         else refSpill (p :: rest) + e.wd.allowed
+                - passesInWin e.wd.W (p.t / e.wd.W) (regime e (p :: rest)))
+      else refSpill (p :: rest) := by
+  rw [refSpill]
 
 theorem holdsKeyRev_append_right (cap : CapFn) (a b : List (Event κ)) (h : holdsKeyRev cap (a ++ b) = true) :
     holdsKeyRev cap b = true := by
@@ -139,38 +159,56 @@ theorem holdsKeyRev_append_right (cap : CapFn) (a b : List (Event κ)) (h : hold
 
 /-! ### per-key invariant -/
 
-/-- Invariant between one `singleRateLimitState` and the key's history so far (most recent first),
-    for window size `W0`. -/
-def InvK (W0 : Nat) (s : KeyState) (acc : List (Event κ)) : Prop :=
+/-- Invariant between one `singleRateLimitState` and the key's history so far (most recent first). -/
+def InvK (s : KeyState) (acc : List (Event κ)) : Prop :=
   match acc with
   | [] => s.windowEnd = 0 ∧ s.spill = 0
   | p :: _ =>
-    s.windowEnd = (p.t / W0) * W0 + W0 ∧ s.counter = passesInWin W0 (p.t / W0) acc ∧
-    s.spill = refSpill acc ∧ (∀ e ∈ acc, e.t ≤ p.t) ∧ (∀ e ∈ acc, e.wd.W = W0)
+    s.wd.W = p.wd.W ∧ 0 < p.wd.W ∧ s.windowEnd = (p.t / p.wd.W) * p.wd.W + p.wd.W ∧
+    s.counter = passesInWin p.wd.W (p.t / p.wd.W) (regimeW p.wd.W acc) ∧
+    s.spill = refSpill acc ∧ (∀ e ∈ acc, e.t ≤ p.t)
 
-theorem invK_init (W0 : Nat) : InvK (κ := κ) W0 initKey [] := by
+theorem invK_init : InvK (κ := κ) initKey [] := by
   simp [InvK, initKey]
 
-/-- the spill-over the code computes when it resets the stored window -/
-def resetSpill (t : Nat) (wd : WindowData) (s : KeyState) : Int :=
-  if (wd.spillOn && (s.windowEnd != 0)) = true then
-    (if (dayOfMonth t == wd.renewDay) = true then 0 else s.spill + wd.allowed - (s.counter : Int))
-  else s.spill
+/-- the spill-over the code computes when it resets the stored window of state `a` -/
+def resetSpill (t : Nat) (wd : WindowData) (a : KeyState) : Int :=
+  if (wd.spillOn && (a.windowEnd != 0)) = true then
+    (if (dayOfMonth t == wd.renewDay) = true then 0 else a.spill + wd.allowed - (a.counter : Int))
+  else a.spill
 
-theorem tryInc_reset (cap : CapFn) (t : Nat) (wd : WindowData) (s : KeyState) (hgt : t > s.windowEnd) :
+theorem adjust_same (wd : WindowData) (s : KeyState) (h : s.wd.W = wd.W) :
+    adjust wd s = ⟨s.counter, s.spill, s.windowEnd, wd⟩ := by
+  simp [adjust, h]
+
+theorem adjust_diff (wd : WindowData) (s : KeyState) (h : s.wd.W ≠ wd.W) :
+    adjust wd s = ⟨s.counter, s.spill, 0, wd⟩ := by
+  simp [adjust, h]
+
+theorem adjust_of_zero (wd : WindowData) (s : KeyState) (h : s.windowEnd = 0) :
+    adjust wd s = ⟨s.counter, s.spill, 0, wd⟩ := by
+  by_cases hW : s.wd.W = wd.W
+  · rw [adjust_same _ _ hW, h]
+  · exact adjust_diff _ _ hW
+
+theorem tryInc_reset (cap : CapFn) (t : Nat) (wd : WindowData) (s a : KeyState) (ha : adjust wd s = a)
+    (hawd : a.wd = wd) (hge : a.windowEnd ≤ t) :
     tryInc cap t wd s =
-      if cap (wd.allowed + resetSpill t wd s) wd.ratio ≤ 0
-      then (⟨0, resetSpill t wd s, (t / wd.W) * wd.W + wd.W, wd⟩, false)
-      else (⟨1, resetSpill t wd s, (t / wd.W) * wd.W + wd.W, wd⟩, true) := by
-  simp only [tryInc, ensure, hgt, if_true, resetSpill]
+      if cap (wd.allowed + resetSpill t wd a) wd.ratio ≤ 0
+      then (⟨0, resetSpill t wd a, (t / wd.W) * wd.W + wd.W, wd⟩, false)
+      else (⟨1, resetSpill t wd a, (t / wd.W) * wd.W + wd.W, wd⟩, true) := by
+  simp only [tryInc, ha, ensure, hawd, hge, if_true, resetSpill]
   split <;> simp_all
 
-theorem tryInc_keep (cap : CapFn) (t : Nat) (wd : WindowData) (s : KeyState) (hna : ¬ t > s.windowEnd) :
+theorem tryInc_keep (cap : CapFn) (t : Nat) (wd : WindowData) (s a : KeyState) (ha : adjust wd s = a)
+    (hawd : a.wd = wd) (hlt : ¬ a.windowEnd ≤ t) :
     tryInc cap t wd s =
-      if cap (wd.allowed + s.spill) wd.ratio ≤ (s.counter : Int)
-      then (⟨s.counter, s.spill, s.windowEnd, wd⟩, false)
-      else (⟨s.counter + 1, s.spill, s.windowEnd, wd⟩, true) := by
-  simp only [tryInc, ensure, hna, if_false]
+      if cap (wd.allowed + a.spill) wd.ratio ≤ (a.counter : Int)
+      then (⟨a.counter, a.spill, a.windowEnd, wd⟩, false)
+      else (⟨a.counter + 1, a.spill, a.windowEnd, wd⟩, true) := by
+  simp only [tryInc, ha, ensure, hawd, hlt, if_false]
+  cases a
+  split <;> simp_all
 
 theorem mem_cons_le (t : Nat) (x : Event κ) (acc : List (Event κ)) (hx : x.t = t)
     (hmono : ∀ e ∈ acc, e.t ≤ t) : ∀ e ∈ x :: acc, e.t ≤ x.t := by
@@ -180,146 +218,159 @@ theorem mem_cons_le (t : Nat) (x : Event κ) (acc : List (Event κ)) (hx : x.t =
   · exact Nat.le_refl _
   · rw [hx]; exact hmono e he
 
-theorem mem_cons_W (W : Nat) (x : Event κ) (acc : List (Event κ)) (hx : x.wd.W = W)
-    (hWs : ∀ e ∈ acc, e.wd.W = W) : ∀ e ∈ x :: acc, e.wd.W = W := by
-  intro e he
-  simp only [List.mem_cons] at he
-  rcases he with rfl | he
-  · exact hx
-  · exact hWs e he
-
-theorem tryInc_inv (cap : CapFn) (W0 : Nat) (hW : 0 < W0) (s : KeyState) (acc : List (Event κ))
-    (r : Req κ) (hinv : InvK W0 s acc) (hrW : r.wd.W = W0) (hb : r.t % W0 ≠ 0)
-    (hmono : ∀ e ∈ acc, e.t ≤ r.t) :
-    InvK W0 (tryInc cap r.t r.wd s).1 (⟨r.key, r.t, r.wd, (tryInc cap r.t r.wd s).2⟩ :: acc) ∧
+theorem tryInc_inv (cap : CapFn) (s : KeyState) (acc : List (Event κ))
+    (r : Req κ) (hinv : InvK s acc) (hW : 0 < r.wd.W) (hmono : ∀ e ∈ acc, e.t ≤ r.t) :
+    InvK (tryInc cap r.t r.wd s).1 (⟨r.key, r.t, r.wd, (tryInc cap r.t r.wd s).2⟩ :: acc) ∧
     eventOk cap ⟨r.key, r.t, r.wd, (tryInc cap r.t r.wd s).2⟩ acc = true := by
   obtain ⟨rk, t, wd⟩ := r
-  simp only at hrW hb hmono ⊢
-  subst hrW
+  simp only at hW hmono ⊢
   cases acc with
   | nil =>
     obtain ⟨hwe, hsp⟩ := hinv
-    have ht : t > 0 := by
-      rcases Nat.eq_zero_or_pos t with h0 | h0
-      · subst h0; simp at hb
-      · exact h0
-    have hgt : t > s.windowEnd := by omega
-    have hrsp : resetSpill t wd s = 0 := by simp [resetSpill, hwe, hsp]
-    rw [tryInc_reset cap t wd s hgt, hrsp]
+    have ha := adjust_of_zero wd s hwe
+    have hrsp : resetSpill t wd ⟨s.counter, s.spill, 0, wd⟩ = 0 := by simp [resetSpill, hsp]
+    rw [tryInc_reset cap t wd s _ ha rfl (Nat.zero_le _), hrsp]
     split
     · next hc =>
-      refine ⟨⟨rfl, ?_, ?_, ?_, ?_⟩, ?_⟩
-      · simp [passesInWin]
+      try dsimp only at hc
+      refine ⟨⟨rfl, hW, rfl, ?_, ?_, ?_⟩, ?_⟩
+      · simp [regimeW, passesInWin]
       · simp [refSpill]
       · simp
-      · simp
-      · simp only [eventOk, regime, List.takeWhile_nil, passesInWin, refSpill]
+      · simp only [eventOk, regime, regimeW, List.takeWhile_nil, passesInWin, refSpill]
         simp only [Int.add_zero] at hc
         simp
         omega
     · next hc =>
-      refine ⟨⟨rfl, ?_, ?_, ?_, ?_⟩, ?_⟩
-      · simp [passesInWin]
+      try dsimp only at hc
+      refine ⟨⟨rfl, hW, rfl, ?_, ?_, ?_⟩, ?_⟩
+      · simp [regimeW, passesInWin]
       · simp [refSpill]
       · simp
-      · simp
-      · simp only [eventOk, regime, List.takeWhile_nil, passesInWin, refSpill]
+      · simp only [eventOk, regime, regimeW, List.takeWhile_nil, passesInWin, refSpill]
         simp only [Int.add_zero] at hc
         simp
         omega
   | cons q rest =>
-    obtain ⟨hwe, hcnt, hsp, hle, hWs⟩ := hinv
+    obtain ⟨hsW, hqW0, hwe, hcnt, hsp, hle⟩ := hinv
     have hqt : q.t ≤ t := hmono q (by simp)
-    by_cases hsame : t / wd.W = q.t / wd.W
-    · -- same grid window: the stored window is kept
-      have hna : ¬ (t > s.windowEnd) := by rw [hwe]; exact same_window_not_after _ _ _ hW hsame
-      have hcnt' : passesInWin wd.W (t / wd.W) (q :: rest) = s.counter := by rw [hsame, hcnt]
+    by_cases hWeq : q.wd.W = wd.W
+    · -- the window size is unchanged
+      rw [hWeq] at hsW hwe hcnt
+      have ha := adjust_same wd s hsW
+      by_cases hsame : t / wd.W = q.t / wd.W
+      · -- same grid window: the stored window is kept
+        have hlt : ¬ (s.windowEnd ≤ t) := by rw [hwe]; exact same_window_before _ _ _ hW hsame
+        have hcnt' : passesInWin wd.W (t / wd.W) (regimeW wd.W (q :: rest)) = s.counter := by
+          rw [hsame, hcnt]
+        have hrs : ∀ p : Bool, refSpill ((⟨rk, t, wd, p⟩ : Event κ) :: q :: rest) = s.spill := by
+          intro p; rw [refSpill_cons_cons]; simp [hWeq, hsame, hsp]
+        rw [tryInc_keep cap t wd s _ ha rfl hlt]
+        split
+        · next hc =>
+          try dsimp only at hc
+          refine ⟨⟨rfl, hW, ?_, ?_, ?_, ?_⟩, ?_⟩
+          · simp [hwe, hsame]
+          · rw [regimeW_cons_same _ _ _ rfl]
+            simp only [passesInWin, Bool.false_and, Bool.false_eq_true, if_false, Nat.zero_add]
+            omega
+          · rw [hrs]
+          · exact mem_cons_le t _ _ rfl hmono
+          · simp only [eventOk, regime, hrs, hcnt']
+            simp
+            omega
+        · next hc =>
+          try dsimp only at hc
+          refine ⟨⟨rfl, hW, ?_, ?_, ?_, ?_⟩, ?_⟩
+          · simp [hwe, hsame]
+          · rw [regimeW_cons_same _ _ _ rfl]
+            simp only [passesInWin, Bool.true_and, beq_self_eq_true, if_true]
+            omega
+          · rw [hrs]
+          · exact mem_cons_le t _ _ rfl hmono
+          · simp only [eventOk, regime, hrs, hcnt']
+            simp
+            omega
+      · -- a new grid window: the stored window is reset
+        have hge : s.windowEnd ≤ t := by rw [hwe]; exact new_window_reached _ _ _ hqt hsame
+        have hwe0 : (s.windowEnd != 0) = true := by
+          have : s.windowEnd ≠ 0 := by rw [hwe]; omega
+          simpa using this
+        have hzero : passesInWin wd.W (t / wd.W) (regimeW wd.W (q :: rest)) = 0 :=
+          passesInWin_zero _ _ _ (fun e he =>
+            older_not_in_new_window _ _ _ _ (hle e (mem_regimeW _ _ _ he)) hqt hsame)
+        have hrs : ∀ p : Bool, refSpill ((⟨rk, t, wd, p⟩ : Event κ) :: q :: rest)
+            = resetSpill t wd ⟨s.counter, s.spill, s.windowEnd, wd⟩ := by
+          intro p
+          have hne : ¬ (t / wd.W = q.t / wd.W) := hsame
+          rw [refSpill_cons_cons]
+          simp only [resetSpill, regime, hwe0, Bool.and_true, beq_iff_eq, bne_iff_ne, ne_eq, hWeq,
+            not_true_eq_false, hne, if_false, ← hsp, ← hcnt]
+        rw [tryInc_reset cap t wd s _ ha rfl hge]
+        split
+        · next hc =>
+          try dsimp only at hc
+          refine ⟨⟨rfl, hW, rfl, ?_, ?_, ?_⟩, ?_⟩
+          · rw [regimeW_cons_same _ _ _ rfl]
+            simp only [passesInWin, Bool.false_and, Bool.false_eq_true, if_false, Nat.zero_add]
+            omega
+          · rw [hrs]
+          · exact mem_cons_le t _ _ rfl hmono
+          · simp only [eventOk, regime, hrs, hzero]
+            simp
+            omega
+        · next hc =>
+          try dsimp only at hc
+          refine ⟨⟨rfl, hW, rfl, ?_, ?_, ?_⟩, ?_⟩
+          · rw [regimeW_cons_same _ _ _ rfl]
+            simp only [passesInWin, Bool.true_and, beq_self_eq_true, if_true]
+            omega
+          · rw [hrs]
+          · exact mem_cons_le t _ _ rfl hmono
+          · simp only [eventOk, regime, hrs, hzero]
+            simp
+            omega
+    · -- the window size changed: counting starts afresh, the spill-over is carried as is
+      have hsW' : s.wd.W ≠ wd.W := by rw [hsW]; exact hWeq
+      have ha := adjust_diff wd s hsW'
+      have hrsp : resetSpill t wd ⟨s.counter, s.spill, 0, wd⟩ = s.spill := by simp [resetSpill]
       have hrs : ∀ p : Bool, refSpill ((⟨rk, t, wd, p⟩ : Event κ) :: q :: rest) = s.spill := by
-        intro p; rw [refSpill_cons_cons]; simp [hsame, hsp]
-      rw [tryInc_keep cap t wd s hna]
+        intro p; rw [refSpill_cons_cons]; simp [hWeq, hsp]
+      have hreg : regimeW wd.W (q :: rest) = [] := regimeW_cons_diff _ _ _ hWeq
+      rw [tryInc_reset cap t wd s _ ha rfl (Nat.zero_le _), hrsp]
       split
       · next hc =>
-        refine ⟨⟨?_, ?_, ?_, ?_, ?_⟩, ?_⟩
-        · simp [hwe, hsame]
-        · simp only [passesInWin, Bool.false_and, Bool.false_eq_true, if_false, Nat.zero_add]
-          have := hcnt'
-          simp only [passesInWin] at this
-          omega
+        try dsimp only at hc
+        refine ⟨⟨rfl, hW, rfl, ?_, ?_, ?_⟩, ?_⟩
+        · rw [regimeW_cons_same _ _ _ rfl, hreg]
+          simp [passesInWin]
         · rw [hrs]
         · exact mem_cons_le t _ _ rfl hmono
-        · exact mem_cons_W wd.W _ _ rfl hWs
-        · rw [eventOk, regime_eq _ _ hWs]
-          simp only [hrs, hcnt']
+        · simp only [eventOk, regime, hrs, hreg, passesInWin]
           simp
           omega
       · next hc =>
-        refine ⟨⟨?_, ?_, ?_, ?_, ?_⟩, ?_⟩
-        · simp [hwe, hsame]
-        · simp only [passesInWin, Bool.true_and, beq_self_eq_true, if_true]
-          have := hcnt'
-          simp only [passesInWin] at this
-          omega
+        try dsimp only at hc
+        refine ⟨⟨rfl, hW, rfl, ?_, ?_, ?_⟩, ?_⟩
+        · rw [regimeW_cons_same _ _ _ rfl, hreg]
+          simp [passesInWin]
         · rw [hrs]
         · exact mem_cons_le t _ _ rfl hmono
-        · exact mem_cons_W wd.W _ _ rfl hWs
-        · rw [eventOk, regime_eq _ _ hWs]
-          simp only [hrs, hcnt']
-          simp
-          omega
-    · -- a new grid window: the stored window is reset
-      have hgt : t > s.windowEnd := by rw [hwe]; exact new_window_after _ _ _ hW hqt hb hsame
-      have hwe0 : (s.windowEnd != 0) = true := by
-        have : s.windowEnd ≠ 0 := by rw [hwe]; omega
-        simpa using this
-      have hzero : passesInWin wd.W (t / wd.W) (q :: rest) = 0 :=
-        passesInWin_zero _ _ _ (fun e he => older_not_in_new_window _ _ _ _ (hle e he) hqt hsame)
-      -- the spill-over computed by the code equals the reference
-      have hrs : ∀ p : Bool, refSpill ((⟨rk, t, wd, p⟩ : Event κ) :: q :: rest) = resetSpill t wd s := by
-        intro p
-        have hne : ¬ (t / wd.W = q.t / wd.W) := hsame
-        rw [refSpill_cons_cons]
-        simp only [resetSpill, hwe0, Bool.and_true, beq_iff_eq, hne, if_false, ← hsp, ← hcnt]
-      rw [tryInc_reset cap t wd s hgt]
-      split
-      · next hc =>
-        refine ⟨⟨rfl, ?_, ?_, ?_, ?_⟩, ?_⟩
-        · simp only [passesInWin, Bool.false_and, Bool.false_eq_true, if_false, Nat.zero_add]
-          have := hzero
-          simp only [passesInWin] at this
-          omega
-        · rw [hrs]
-        · exact mem_cons_le t _ _ rfl hmono
-        · exact mem_cons_W wd.W _ _ rfl hWs
-        · rw [eventOk, regime_eq _ _ hWs]
-          simp only [hrs, hzero]
-          simp
-          omega
-      · next hc =>
-        refine ⟨⟨rfl, ?_, ?_, ?_, ?_⟩, ?_⟩
-        · simp only [passesInWin, Bool.true_and, beq_self_eq_true, if_true]
-          have := hzero
-          simp only [passesInWin] at this
-          omega
-        · rw [hrs]
-        · exact mem_cons_le t _ _ rfl hmono
-        · exact mem_cons_W wd.W _ _ rfl hWs
-        · rw [eventOk, regime_eq _ _ hWs]
-          simp only [hrs, hzero]
+        · simp only [eventOk, regime, hrs, hreg, passesInWin]
           simp
           omega
 
 /-- Every run of one `singleRateLimitState` over admissible requests satisfies the per-key Spec. -/
-theorem runK_holds (cap : CapFn) (W0 : Nat) (hW : 0 < W0) (rs : List (Req κ)) :
-    ∀ (s : KeyState) (acc : List (Event κ)), InvK W0 s acc → holdsKeyRev cap acc = true →
-      (∀ r ∈ rs, r.wd.W = W0 ∧ r.t % W0 ≠ 0) → rs.Pairwise (fun a b => a.t ≤ b.t) →
+theorem runK_holds (cap : CapFn) (rs : List (Req κ)) :
+    ∀ (s : KeyState) (acc : List (Event κ)), InvK s acc → holdsKeyRev cap acc = true →
+      (∀ r ∈ rs, 0 < r.wd.W) → rs.Pairwise (fun a b => a.t ≤ b.t) →
       (∀ e ∈ acc, ∀ r ∈ rs, e.t ≤ r.t) →
       holdsKeyRev cap ((runK cap s rs).reverse ++ acc) = true := by
   induction rs with
   | nil => intro s acc _ h _ _ _; simpa [runK] using h
   | cons r rs ih =>
     intro s acc hinv hacc hrs hsorted hle
-    have hr := hrs r (by simp)
-    have hstep := tryInc_inv cap W0 hW s acc r hinv hr.1 hr.2 (fun e he => hle e he r (by simp))
+    have hstep := tryInc_inv cap s acc r hinv (hrs r (by simp)) (fun e he => hle e he r (by simp))
     simp only [runK, List.reverse_cons, List.append_assoc, List.singleton_append]
     rw [List.pairwise_cons] at hsorted
     apply ih _ _ hstep.1
@@ -336,38 +387,15 @@ theorem keyHist_runL (cap : CapFn) (k : κ) (rs : List (Req κ)) :
     keyHist k (runL cap [] rs) = (runK cap initKey (rs.filter (fun r => r.key == k))).reverse := by
   simp [keyHist, filter_runL, find]
 
-/-- facts extracted from `admissible` -/
-theorem admissible_key (rs : List (Req κ)) (hadm : admissible rs = true) (r0 : Req κ) (h0 : r0 ∈ rs) :
-    0 < r0.wd.W ∧
-    (∀ r ∈ rs.filter (fun r => r.key == r0.key), r.wd.W = r0.wd.W ∧ r.t % r0.wd.W ≠ 0) ∧
-    (rs.filter (fun r => r.key == r0.key)).Pairwise (fun a b => a.t ≤ b.t) := by
-  simp only [admissible, monotone, boundaryFree, constW, Bool.and_eq_true, decide_eq_true_eq,
-    List.all_eq_true, Bool.or_eq_true, Bool.not_eq_true', beq_iff_eq, beq_eq_false_iff_ne] at hadm
-  obtain ⟨⟨hm, hbf⟩, hcw⟩ := hadm
-  refine ⟨(hbf r0 h0).1, ?_, hm.filter _⟩
-  intro r hr
-  simp only [List.mem_filter, beq_iff_eq] at hr
-  have hWeq : r.wd.W = r0.wd.W := by
-    rcases hcw r hr.1 r0 h0 with h | h
-    · exact absurd hr.2 h
-    · exact h
-  refine ⟨hWeq, ?_⟩
-  rw [← hWeq]
-  exact (hbf r hr.1).2
-
 theorem runL_holds_of_admissible (cap : CapFn) (rs : List (Req κ)) (hadm : admissible rs = true) :
     holds cap (runL cap [] rs) = true := by
+  simp only [admissible, monotone, posW, Bool.and_eq_true, decide_eq_true_eq, List.all_eq_true] at hadm
   simp only [holds, List.all_eq_true]
-  intro e he
-  have hin : e.req ∈ rs := by
-    have := runL_inputs cap rs ([] : State κ)
-    rw [← this]
-    exact List.mem_map.mpr ⟨e, he, rfl⟩
-  obtain ⟨hW, hall, hsorted⟩ := admissible_key rs hadm e.req hin
+  intro e _
   rw [keyHist_runL]
-  have := runK_holds cap e.req.wd.W hW _ initKey [] (invK_init _) rfl hall hsorted
-    (fun _ h => by simp at h)
-  simpa [Event.req] using this
+  have := runK_holds cap (rs.filter (fun r => r.key == e.key)) initKey [] invK_init rfl
+    (fun r hr => hadm.2 r (List.mem_filter.mp hr).1) (hadm.1.filter _) (fun _ h => by simp at h)
+  simpa using this
 
 /-! ### consequences of `holds` for a split history -/
 
@@ -386,19 +414,6 @@ theorem holds_split (cap : CapFn) (pre post : List (Event κ)) (e : Event κ)
   have h3 := holdsKeyRev_append_right cap _ _ h1
   simp only [List.singleton_append, holdsKeyRev, Bool.and_eq_true] at h3
   exact h3.1
-
-theorem clean_regime (h pre post : List (Event κ)) (e : Event κ) (hclean : clean h = true)
-    (hsplit : h = pre ++ e :: post) : regime e (keyHist e.key pre) = keyHist e.key pre := by
-  apply regime_eq
-  intro p hp
-  simp only [keyHist, List.mem_reverse, List.mem_filter, beq_iff_eq] at hp
-  simp only [clean, admissible, constW, Bool.and_eq_true, List.all_eq_true, Bool.or_eq_true,
-    Bool.not_eq_true', beq_iff_eq, beq_eq_false_iff_ne] at hclean
-  have hpin : p.req ∈ inputs h := List.mem_map.mpr ⟨p, by rw [hsplit]; simp [hp.1], rfl⟩
-  have hein : e.req ∈ inputs h := List.mem_map.mpr ⟨e, by rw [hsplit]; simp, rfl⟩
-  rcases hclean.2 p.req hpin e.req hein with hne | heq
-  · exact absurd hp.2 hne
-  · exact heq
 
 /-! ### constant window data, spill-over off: the plain "≤ cap per grid window" form -/
 
